@@ -173,9 +173,15 @@ func TestVerif_C20_CmpExhaustive(t *testing.T) {
 	}
 }
 
-func verifC20NAFOracle(t vt.TB, rec *stats.Recorder, s []byte, w, outLen int) (carryTop bool, nonzero int) {
+func verifC20NAFOracle(t vt.TB, rec *stats.Recorder, s []byte, w, outLen int, tail ...byte) (carryTop bool, nonzero int) {
 	out := make([]int, outLen)
-	if p := vt.Catch(func() { DecomposeNAF(out, s, 257, w) }); p != nil {
+	// the 256-bit integer may be the LEADING field of a longer slice (r inside r||s, x inside a point encoding, a record with trailing
+	// fields): "n-bit big endian integer s" is then its first 32 bytes, whatever follows
+	arg := s
+	if len(tail) > 0 {
+		arg = append(append(make([]byte, 0, len(s)+len(tail)), s...), tail...)
+	}
+	if p := vt.Catch(func() { DecomposeNAF(out, arg, 257, w) }); p != nil {
 		vt.Fail(t, rec, "C20:naf:panic", "DecomposeNAF panicked: %v\ns=%x w=%d", p, s, w)
 		return
 	}
@@ -217,7 +223,7 @@ func verifC20NAFOracle(t vt.TB, rec *stats.Recorder, s []byte, w, outLen int) (c
 // verifProp_C20_NAF builds the property (shared by the rapid test and the native fuzz target).
 func verifProp_C20_NAF() func(*rapid.T) {
 	rec := stats.Get("C20", "naf")
-	rec.Rule("rapid: 32-byte s from {uniform, leading 00/FF, around 0/n/p/2^256, bit runs, one bit, extreme bytes, all-FF with one byte varied}, w in 1..7, len(out) in 257..300 zeroed; oracle: digits 0 or odd with |d|<2^w, w zeros after each non-zero digit, sum d_i 2^i = int(s), nothing written past index 256. Non-trivial: carry out of the top window (digit at index 256) or input with a run of >= w+1 one bits; distinct by (s,w).")
+	rec.Rule("rapid: 32-byte s from {uniform, leading 00/FF, around 0/n/p/2^256, bit runs, one bit, extreme bytes, densest recodings, all-FF with one byte varied}, in one case of four as the leading field of a longer slice (1..200 trailing bytes), w in 1..7, len(out) in 257..300 zeroed; oracle: digits 0 or odd with |d|<2^w, w zeros after each non-zero digit, sum d_i 2^i = int(s), nothing written past index 256. Non-trivial: carry out of the top window (digit at index 256) or input with a run of >= w+1 one bits; distinct by (s,w).")
 	return func(t *rapid.T) {
 		s, cls := gen.Bytes32(t, "s")
 		if gen.Int(t, "ffvar", 0, 9) == 0 {
@@ -241,7 +247,12 @@ func verifProp_C20_NAF() func(*rapid.T) {
 				run = 0
 			}
 		}
-		top, _ := verifC20NAFOracle(t, rec, s, w, outLen)
+		var tail []byte
+		if gen.Uniform(t, "longer", 0, 3) == 0 {
+			tail = gen.RandBytes(gen.Rand(t, "tailseed"), []int{1, 1, 32, 33, 8, 64, 200}[gen.Uniform(t, "taillen", 0, 6)])
+			cls += "+trailing-bytes"
+		}
+		top, _ := verifC20NAFOracle(t, rec, s, w, outLen, tail...)
 		nt := top || best >= w+1
 		rec.Case(stats.Hash(s, []byte{byte(w)}), nt, cls, fmt.Sprintf("w=%d", w), fmt.Sprintf("topcarry:%v", top))
 		if rec.WantSample(cls) {
